@@ -185,6 +185,11 @@ struct Config {
     /// 0 = NoMergePolicy, n>0 = LogMergePolicy with min_num_segments n
     policy: usize,
     mmap: bool,
+    /// index sorting: 0 none, 1 by `grp` ascending, 2 by `grp` descending, 3 by `id` descending
+    /// (doc ids inside a segment are then NOT in opstamp order: the per-document opstamp map of
+    /// `apply_deletes` is permuted)
+    #[serde(default)]
+    sort: u8,
 }
 
 #[derive(Serialize, Deserialize, Clone, Debug)]
@@ -330,6 +335,14 @@ struct Exec {
     /// of a re-created writer (its opstamp equals the commit opstamp: a merge of committed
     /// segments, whose target is that opstamp, applies and publishes it)
     f8_cands: BTreeSet<u64>,
+    /// second manifestation of F8: the same first delete is LOST for the documents of a committed
+    /// segment whose delete_opstamp equals the commit opstamp (`advance_deletes` returns early:
+    /// "already up to date") when a merge gives the merged segment the advanced cursor of another
+    /// source: committed documents matched by that delete whose segment had
+    /// delete_opstamp == opstamp at writer creation
+    f8_lost_cands: BTreeSet<u64>,
+    /// delete_opstamp of the segment of every published document at the last check point
+    last_seg_delop: BTreeMap<u64, Option<u64>>,
     /// documents added by a producer thread and deleted later by the SAME thread inside one
     /// concurrent block in which another thread also adds (every linearisation deletes them)
     f10_cands: BTreeSet<u64>,
@@ -376,7 +389,14 @@ impl Exec {
         } else {
             Dir::Ram(RamDirectory::create())
         };
-        let index = Index::create(dir.open(), schema, Default::default()).unwrap();
+        let mut settings = tantivy::IndexSettings::default();
+        settings.sort_by_field = match cfg.sort {
+            1 => Some(tantivy::IndexSortByField { field: "grp".into(), order: tantivy::Order::Asc }),
+            2 => Some(tantivy::IndexSortByField { field: "grp".into(), order: tantivy::Order::Desc }),
+            3 => Some(tantivy::IndexSortByField { field: "id".into(), order: tantivy::Order::Desc }),
+            _ => None,
+        };
+        let index = Index::create(dir.open(), schema, settings).unwrap();
         tantivy::verif::set_segment_cut_docs(cfg.cut);
         let mut e = Exec {
             cfg: cfg.clone(),
@@ -403,6 +423,8 @@ impl Exec {
             f3_extra: BTreeSet::new(),
             dirty_delete_all: false,
             f8_cands: BTreeSet::new(),
+            f8_lost_cands: BTreeSet::new(),
+            last_seg_delop: BTreeMap::new(),
             f10_cands: BTreeSet::new(),
             producer_race_seen: false,
             first_del: false,
@@ -515,6 +537,9 @@ impl Exec {
             self.first_del = true;
             for id in self.committed.iter().filter(|i| q_matches(q, **i)) {
                 self.f8_cands.insert(*id);
+                if self.last_seg_delop.get(id).cloned().flatten() == Some(self.session_start) {
+                    self.f8_lost_cands.insert(*id);
+                }
             }
         }
         if self.tainted(op) {
@@ -898,10 +923,15 @@ impl Exec {
         let mut fast = vec![];
         let mut field_errors = vec![];
         let mut seg_of: BTreeMap<u64, usize> = BTreeMap::new();
+        let mut delops: BTreeMap<u64, Option<u64>> = BTreeMap::new();
         self.nsegs_max = self.nsegs_max.max(searcher.segment_readers().len());
         let mut total = 0u64;
         for (ord, sr) in searcher.segment_readers().iter().enumerate() {
             let col = sr.fast_fields().u64("id").map_err(|e| e.to_string())?;
+            if std::env::var("C02_DIAG_ALL").is_ok() {
+                let all: Vec<(u32, Option<u64>, bool)> = (0..sr.max_doc()).map(|d| (d, col.first(d), sr.alive_bitset().map_or(true, |b| b.is_alive(d)))).collect();
+                eprintln!("DIAG checkpoint {} segment {} ord {} docs(doc,id,alive) {:?}", self.checkpoints, sr.segment_id().uuid_string(), ord, all);
+            }
             let gcol = sr.fast_fields().u64("grp").map_err(|e| e.to_string())?;
             total += sr.num_docs() as u64;
             for doc in sr.doc_ids_alive() {
@@ -916,6 +946,7 @@ impl Exec {
                     Some(id) => {
                         stored.push(id);
                         seg_of.insert(id, ord);
+                        delops.insert(id, sr.delete_opstamp());
                         let tag = d.get_first(self.f.tag).and_then(|v| v.as_str().map(|s| s.to_string()));
                         let body = d.get_first(self.f.body).and_then(|v| v.as_str().map(|s| s.to_string()));
                         let grp = d.get_first(self.f.grp).and_then(|v| v.as_u64());
@@ -959,6 +990,7 @@ impl Exec {
         stored.sort();
         fast.sort();
         by_term.sort();
+        self.last_seg_delop = delops;
         Ok((stored, fast, by_term, field_errors, seg_of))
     }
 
@@ -1039,9 +1071,12 @@ self.storage_error("C02:searcher-unreadable", format!("after {how}: {e}"), out);
             ctx.report.count("checkpoint:differs-from-replay");
             let (mut f2, mut f3e, mut other_e) = (vec![], vec![], vec![]);
             let mut f10 = vec![];
+            let mut f8l = vec![];
             for id in &extra {
                 if self.f10_cands.contains(id) {
                     f10.push(*id);
+                } else if lean_first && self.first_del && self.merge_possible && self.f8_lost_cands.contains(id) {
+                    f8l.push(*id);
                 } else if !lean_clean && self.f2_cands.contains(id) {
                     f2.push(*id);
                 } else if !lean_clean && self.f3_extra.contains(id) {
@@ -1063,6 +1098,9 @@ self.storage_error("C02:searcher-unreadable", format!("after {how}: {e}"), out);
             }
             if !f8.is_empty() {
                 out.push(Finding { kind: "oracle", key: K_F8.into(), what: format!("after {how}: documents {:?} were removed and published without a commit: the first delete of a re-created writer has the opstamp of the last commit and a merge of committed segments (target = that opstamp) applied it", f8) });
+            }
+            if !f8l.is_empty() {
+                out.push(Finding { kind: "oracle", key: K_F8.into(), what: format!("after {how}: documents {:?} survive the first delete of a re-created writer: it has the opstamp of the last commit, their segment has delete_opstamp == that opstamp, so advance_deletes(target = that opstamp) skips it as up to date while the merged segment takes the cursor of another, advanced source", f8l) });
             }
             if !f10.is_empty() {
                 self.producer_race_seen = true;
@@ -1216,7 +1254,7 @@ fn gen_case(rng: &mut Rng, profile: u64) -> Case {
     let threads = match rng.below(6) { 0 | 1 => 1, 2 => 2, 3 => 3, 4 => 4, _ => 8 };
     let cut = *rng.pick(&[0u32, 0, 1, 2, 3, 5]);
     let policy = *rng.pick(&[0usize, 0, 2, 3]);
-    let config = Config { threads, cut, policy, mmap: rng.chance(1, 12) };
+    let config = Config { threads, cut, policy, mmap: rng.chance(1, 12), sort: *rng.pick(&[0u8, 0, 0, 0, 1, 2, 3, 3]) };
     let mut g = Gen { next_id: rng.below(3), live_guess: vec![] };
     let mut ops: Vec<HOp> = vec![];
     let n = 8 + rng.usize_below(if profile == 2 { 70 } else { 40 });
@@ -1405,7 +1443,7 @@ fn gen_memcut_case(rng: &mut Rng, shape: u64) -> Case {
         }
     }
     ops.push(HOp::Commit);
-    Case { config: Config { threads, cut: 0, policy: 0, mmap: false }, ops }
+    Case { config: Config { threads, cut: 0, policy: 0, mmap: false, sort: 0 }, ops }
 }
 
 /// F9, deterministically: the segment-updater thread of the old writer is held (by the
@@ -1518,6 +1556,228 @@ fn lifecycle_race(ctx: &mut Ctx) {
     ctx.report.case("lifecycle-race", true);
 }
 
+// ------------------------------------------------------------------------------------------
+// forced producer schedules (DESIGN H3): two producer threads, one call each, every order of
+// {stamp1, publish1, stamp2, publish2}, through `tantivy::verif::set_pause_hook`
+
+/// the pairs of calls (the first one stamps first); ids 1, 2 are committed, 3 is pending
+fn forced_pairs() -> Vec<(HOp, HOp)> {
+    let (x, y, z) = (10u64, 11u64, 12u64);
+    vec![
+        (HOp::Batch(vec![BItem::Add(x), BItem::Del(Q::Id(x)), BItem::Add(y)]), HOp::Add(z)),
+        (HOp::Add(z), HOp::Batch(vec![BItem::Add(x), BItem::Del(Q::Id(x)), BItem::Add(y)])),
+        (HOp::Add(x), HOp::DelTerm(Q::Id(x))),
+        (HOp::DelTerm(Q::Id(x)), HOp::Add(x)),
+        (HOp::Batch(vec![BItem::Add(x), BItem::Add(y)]), HOp::DelTerm(Q::Id(x))),
+        (HOp::DelTerm(Q::Id(1)), HOp::DelTerm(Q::Id(3))),
+        (HOp::Batch(vec![BItem::Del(Q::Id(3)), BItem::Add(x)]), HOp::Add(y)),
+        (HOp::Add(x), HOp::Add(y)),
+        (HOp::Batch(vec![BItem::Add(x), BItem::Del(Q::Id(y)), BItem::Add(z)]), HOp::Batch(vec![BItem::Add(y), BItem::Del(Q::Id(x))])),
+        (HOp::DelTerm(Q::Id(3)), HOp::Batch(vec![BItem::Add(x), BItem::Del(Q::Id(1))])),
+        (HOp::DelQuery(Q::Range(0, 100)), HOp::Add(x)),
+        (HOp::Batch(vec![BItem::Add(x), BItem::Del(Q::Id(x)), BItem::Add(x + 50)]), HOp::Batch(vec![BItem::Add(y), BItem::Del(Q::Id(y)), BItem::Add(y + 50)])),
+    ]
+}
+
+fn forced_tok(op: &HOp) -> Tok {
+    match op {
+        HOp::Add(i) => Tok::Add(*i),
+        HOp::DelTerm(q) | HOp::DelQuery(q) => Tok::Del(q.clone()),
+        HOp::Batch(items) => Tok::Batch(items.clone()),
+        _ => Tok::Prepare,
+    }
+}
+
+/// schedule 0: s1 p1 s2 p2 (sequential); 1: s1 s2 p1 p2; 2: s1 s2 p2 p1
+fn forced_schedule(ctx: &mut Ctx, pair_idx: usize, schedule: u64, cut: u32) {
+    use std::sync::{Arc, Condvar, Mutex};
+    let pairs = forced_pairs();
+    let (op1, op2) = pairs[pair_idx % pairs.len()].clone();
+    #[derive(Default)]
+    struct Gate {
+        stamped: [bool; 2],
+        go: [bool; 2],
+    }
+    let gate: Arc<(Mutex<Gate>, Condvar)> = Arc::new((Mutex::new(Gate::default()), Condvar::new()));
+    let wait_for = |gate: &Arc<(Mutex<Gate>, Condvar)>, f: &dyn Fn(&Gate) -> bool| -> bool {
+        let (m, cv) = &**gate;
+        let g = m.lock().unwrap();
+        let (g, res) = cv.wait_timeout_while(g, std::time::Duration::from_secs(5), |g| !f(g)).unwrap();
+        drop(g);
+        !res.timed_out()
+    };
+    {
+        let gate = gate.clone();
+        tantivy::verif::set_pause_hook(Some(Arc::new(move |_name: &'static str| {
+            let k = match std::thread::current().name() {
+                Some("c02-prod-0") => 0,
+                Some("c02-prod-1") => 1,
+                _ => return,
+            };
+            let (m, cv) = &*gate;
+            let mut g = m.lock().unwrap();
+            g.stamped[k] = true;
+            cv.notify_all();
+            let _ = cv.wait_timeout_while(g, std::time::Duration::from_secs(5), |g| !g.go[k]).unwrap();
+        })));
+    }
+    let res = catch_unwind(AssertUnwindSafe(|| -> Option<(Vec<u64>, [Option<u64>; 2])> {
+        let mut sb = Schema::builder();
+        let id = sb.add_u64_field("id", FAST | INDEXED | STORED);
+        let tag = sb.add_text_field("tag", STRING | STORED);
+        let body = sb.add_text_field("body", TEXT | STORED);
+        let grp = sb.add_u64_field("grp", FAST | INDEXED | STORED);
+        let f = Fields { id, tag, body, grp };
+        let index = Index::create(RamDirectory::create(), sb.build(), Default::default()).ok()?;
+        tantivy::verif::set_segment_cut_docs(cut);
+        let mut w: IndexWriter = index.writer_with_num_threads(1, 15_000_000).ok()?;
+        w.set_merge_policy(Box::new(NoMergePolicy));
+        w.add_document(make_doc(&f, 1)).ok()?;
+        w.add_document(make_doc(&f, 2)).ok()?;
+        w.commit().ok()?;
+        w.add_document(make_doc(&f, 3)).ok()?;
+        let call = |w: &IndexWriter, op: &HOp| -> Option<u64> {
+            match op {
+                HOp::Add(i) => w.add_document(make_doc(&f, *i)).ok(),
+                HOp::DelTerm(q) => Some(w.delete_term(q_term(q, &f))),
+                HOp::DelQuery(q) => w.delete_query(q_build(q, &f)).ok(),
+                HOp::Batch(items) => w
+                    .run(items.iter().map(|it| match it {
+                        BItem::Add(i) => UserOperation::Add(make_doc(&f, *i)),
+                        BItem::Del(q) => UserOperation::Delete(q_term(q, &f)),
+                    }).collect::<Vec<_>>())
+                    .ok(),
+                _ => None,
+            }
+        };
+        let mut rets: [Option<u64>; 2] = [None, None];
+        let ok = {
+            let w = &w;
+            let (op1, op2) = (&op1, &op2);
+            let call = &call;
+            let gate = &gate;
+            std::thread::scope(|s| -> bool {
+                let spawn = |k: usize, op: &'_ HOp| {
+                    let op = op.clone();
+                    std::thread::Builder::new().name(format!("c02-prod-{k}")).spawn_scoped(s, move || call(w, &op)).unwrap()
+                };
+                let release = |k: usize| {
+                    let (m, cv) = &**gate;
+                    m.lock().unwrap().go[k] = true;
+                    cv.notify_all();
+                };
+                let h0 = spawn(0, op1);
+                let mut ok = wait_for(gate, &|g| g.stamped[0]);
+                if schedule == 0 {
+                    release(0);
+                    rets[0] = h0.join().ok().flatten();
+                    let h1 = spawn(1, op2);
+                    ok &= wait_for(gate, &|g| g.stamped[1]);
+                    release(1);
+                    rets[1] = h1.join().ok().flatten();
+                } else {
+                    let h1 = spawn(1, op2);
+                    ok &= wait_for(gate, &|g| g.stamped[1]);
+                    if schedule == 1 {
+                        release(0);
+                        rets[0] = h0.join().ok().flatten();
+                        release(1);
+                        rets[1] = h1.join().ok().flatten();
+                    } else {
+                        release(1);
+                        rets[1] = h1.join().ok().flatten();
+                        release(0);
+                        rets[0] = h0.join().ok().flatten();
+                    }
+                }
+                ok
+            })
+        };
+        if !ok {
+            return None;
+        }
+        w.commit().ok()?;
+        let reader: tantivy::IndexReader = index.reader_builder().reload_policy(ReloadPolicy::Manual).try_into().ok()?;
+        reader.reload().ok()?;
+        let searcher = reader.searcher();
+        let mut ids = vec![];
+        for sr in searcher.segment_readers() {
+            let col = sr.fast_fields().u64("id").ok()?;
+            for doc in sr.doc_ids_alive() {
+                ids.push(col.first(doc)?);
+            }
+        }
+        ids.sort();
+        Some((ids, rets))
+    }));
+    tantivy::verif::set_pause_hook(None);
+    tantivy::verif::set_segment_cut_docs(0);
+    let case = json!({"kind": "forced", "pair": pair_idx, "schedule": schedule, "cut": cut});
+    let sname = ["s1 p1 s2 p2", "s1 s2 p1 p2", "s1 s2 p2 p1"][schedule as usize % 3];
+    ctx.report.count(&format!("forced-schedule:{sname}"));
+    let canon = format!("forced|{pair_idx}|{schedule}|{cut}");
+    ctx.report.case(&canon, true);
+    let (real, rets) = match res {
+        Ok(Some(x)) => x,
+        Ok(None) => {
+            ctx.report.count("forced-schedule:setup-failed");
+            return;
+        }
+        Err(_) => {
+            ctx.report.violation("oracle", "C02:panic", format!("panic in forced schedule {sname} of {:?} | {:?}", op1, op2), case);
+            return;
+        }
+    };
+    // the stamp order is the forced one
+    if let (Some(a), Some(b)) = (rets[0], rets[1]) {
+        if a >= b {
+            ctx.report.violation("oracle", "C02:opstamp-not-increasing", format!("forced schedule {sname}: the call that stamped first returned {a}, the other {b}"), case.clone());
+        }
+    }
+    // admissible outcomes: the sequential replay of the two calls in call order, and - when the
+    // calls overlap - in the other order (Lean specification)
+    let all_ids: Vec<u64> = vec![1, 2, 3, 10, 11, 12, 60, 61];
+    let prior = vec![(Tok::Add(1), None), (Tok::Add(2), None), (Tok::Commit(None), None), (Tok::Add(3), None)];
+    let mut admissible: Vec<Vec<u64>> = vec![];
+    let orders: Vec<[&HOp; 2]> = if schedule == 0 { vec![[&op1, &op2]] } else { vec![[&op1, &op2], [&op2, &op1]] };
+    for o in orders {
+        let mut toks = prior.clone();
+        toks.push((forced_tok(o[0]), None));
+        toks.push((forced_tok(o[1]), None));
+        toks.push((Tok::Commit(None), None));
+        let resp = ask(ctx, &format!("C02 replay {}", render(&toks, &all_ids, false)));
+        if let Some(c) = field(&resp, "committed").and_then(|s| crate::model::parse_nat_list(&s)) {
+            admissible.push(c);
+        }
+    }
+    if admissible.contains(&real) {
+        ctx.report.count("forced-schedule:linearizable");
+        return;
+    }
+    // F10: the first call is a batch that adds and then deletes a document; the other call
+    // stamped later, published an add first; exactly those documents are the extra ones
+    let own_deleted: Vec<u64> = match &op1 {
+        HOp::Batch(items) => items.iter().enumerate().filter_map(|(k, it)| match it {
+            BItem::Add(i) if items[k + 1..].iter().any(|d| matches!(d, BItem::Del(q) if q_matches(q, *i))) => Some(*i),
+            _ => None,
+        }).collect(),
+        _ => vec![],
+    };
+    let other_adds = matches!(&op2, HOp::Add(_)) || matches!(&op2, HOp::Batch(items) if items.iter().any(|i| matches!(i, BItem::Add(_))));
+    let f10 = schedule == 2 && !own_deleted.is_empty() && other_adds && admissible.iter().any(|a| {
+        let mut with = a.clone();
+        with.extend(own_deleted.iter().cloned());
+        with.sort();
+        with == real
+    });
+    if f10 {
+        ctx.report.count("forced-schedule:F10");
+        ctx.report.violation("oracle", K_F10, format!("forced schedule {sname} (segment cut every {cut} docs): call 1 = {:?} drew its stamps and queued its delete, call 2 = {:?} stamped later and was sent first, then call 1 was sent: documents {:?}, which call 1 itself deletes, are published: {:?}; admissible {:?}", op1, op2, own_deleted, real, admissible), case);
+    } else {
+        ctx.report.violation("oracle", "C02:forced-schedule-not-linearizable", format!("forced schedule {sname} (cut {cut}) of {:?} | {:?}: published {:?}, admissible {:?}", op1, op2, real, admissible), case);
+    }
+}
+
 /// F10 searched for directly: producer A issues batches `[add x, delete x, add y]`, producer B
 /// single adds, one indexing worker, every batch its own segment (so every batch starts with a
 /// `skip_to`). Whatever the interleaving, no `x` may be published.
@@ -1607,7 +1867,13 @@ fn run_case(ctx: &mut Ctx, case: &Case) -> Vec<Finding> {
             e.apply(ctx, op, case, &mut found);
         }
         if let Dir::V(v) = &e.dir {
-            if let Some(f) = found.iter().find(|f| f.what.contains("FileDoesNotExist")) {
+            if let Some(f) = found.iter().find(|f| f.what.contains("FileDoesNotExist") || (std::env::var("C02_DIAG_ALL").is_ok() && (f.key.contains("unexpected-survivor") || f.key.contains("missing-document")))) {
+                eprintln!("DIAG finding {} {}", f.key, f.what);
+                if let Ok(metas) = e.index.searchable_segment_metas() {
+                    for m in metas {
+                        eprintln!("DIAG meta {} max_doc={} deleted={} delete_opstamp={:?}", m.id().uuid_string(), m.max_doc(), m.num_deleted_docs(), m.delete_opstamp());
+                    }
+                }
                 let name = f.what.split('"').nth(1).unwrap_or("").trim_end_matches('\\').to_string();
                 let stem = name.split('.').next().unwrap_or("").to_string();
                 let tids = TIDS.lock().unwrap().clone();
@@ -1642,6 +1908,7 @@ fn run_case(ctx: &mut Ctx, case: &Case) -> Vec<Finding> {
         }
         ctx.report.count(&format!("threads:{}", case.config.threads));
         ctx.report.count(&format!("cut:{}", case.config.cut));
+        ctx.report.count(&format!("sort:{}", ["none", "grp-asc", "grp-desc", "id-desc"][(case.config.sort % 4) as usize]));
         ctx.report.count(&format!("merge-policy:{}", if case.config.policy == 0 { "none".to_string() } else { format!("log{}", case.config.policy) }));
         ctx.report.count(&format!("max-segments:{}", match e.nsegs_max { 0 => "0", 1 => "1", 2..=3 => "2-3", 4..=7 => "4-7", _ => "8+" }));
         drop(e.writer.take());
@@ -1692,7 +1959,7 @@ fn report_findings(ctx: &mut Ctx, case: &Case, findings: Vec<Finding>) {
 
 /// hand-written corpus: the three known shapes and their clean neighbours
 fn corpus() -> Vec<Case> {
-    let cfg = |threads, cut| Config { threads, cut, policy: 0, mmap: false };
+    let cfg = |threads, cut| Config { threads, cut, policy: 0, mmap: false, sort: 0 };
     vec![
         // F1
         Case { config: cfg(1, 0), ops: vec![HOp::Add(1), HOp::Add(2), HOp::Commit] },
@@ -1706,14 +1973,20 @@ fn corpus() -> Vec<Case> {
         Case { config: cfg(1, 0), ops: vec![HOp::Add(7), HOp::Add(8), HOp::Commit, HOp::Rollback, HOp::DelTerm(Q::Id(7)), HOp::Merge(1), HOp::DropReopen(true)] },
         // F8 through the merge policy (shape reported by the C01 check): one-document segments,
         // reopen, first operation a delete by term, adds, wait_merging_threads without commit
-        Case { config: Config { threads: 1, cut: 1, policy: 2, mmap: false }, ops: vec![HOp::Add(1), HOp::Add(2), HOp::Add(3), HOp::Commit, HOp::DropReopen(true), HOp::DelTerm(Q::Grp(doc_grp(2))), HOp::Add(4), HOp::Add(5), HOp::Add(6), HOp::WaitMergeReopen] },
+        Case { config: Config { threads: 1, cut: 1, policy: 2, mmap: false, sort: 0 }, ops: vec![HOp::Add(1), HOp::Add(2), HOp::Add(3), HOp::Commit, HOp::DropReopen(true), HOp::DelTerm(Q::Grp(doc_grp(2))), HOp::Add(4), HOp::Add(5), HOp::Add(6), HOp::WaitMergeReopen] },
         // the same with the delete as *second* operation: must equal the replay (a difference here
         // would be a new violation, not F8)
-        Case { config: Config { threads: 1, cut: 1, policy: 2, mmap: false }, ops: vec![HOp::Add(1), HOp::Add(2), HOp::Add(3), HOp::Commit, HOp::DropReopen(true), HOp::Add(4), HOp::DelTerm(Q::Grp(doc_grp(2))), HOp::Add(5), HOp::Add(6), HOp::WaitMergeReopen] },
+        Case { config: Config { threads: 1, cut: 1, policy: 2, mmap: false, sort: 0 }, ops: vec![HOp::Add(1), HOp::Add(2), HOp::Add(3), HOp::Commit, HOp::DropReopen(true), HOp::Add(4), HOp::DelTerm(Q::Grp(doc_grp(2))), HOp::Add(5), HOp::Add(6), HOp::WaitMergeReopen] },
+        // F8, second manifestation (lost delete): a committed segment with delete_opstamp = commit
+        // opstamp, reopen, first operation a delete matching one of its documents, merge
+        Case { config: Config { threads: 1, cut: 2, policy: 0, mmap: false, sort: 0 }, ops: vec![HOp::Add(1), HOp::Add(2), HOp::Add(3), HOp::Add(4), HOp::DelTerm(Q::Id(3)), HOp::Commit, HOp::DropReopen(true), HOp::DelTerm(Q::Id(4)), HOp::Merge(3), HOp::Add(5), HOp::Commit] },
         // clean delete_all: equals replay
         Case { config: cfg(2, 1), ops: vec![HOp::Add(1), HOp::Add(2), HOp::Commit, HOp::DropReopen(true), HOp::DeleteAll, HOp::Add(3), HOp::Commit, HOp::Add(4), HOp::Rollback, HOp::DeleteAll, HOp::Commit] },
         // delete only earlier, same segment / other segment / committed segment
         Case { config: cfg(1, 2), ops: vec![HOp::Add(1), HOp::Add(2), HOp::Add(3), HOp::Commit, HOp::Add(4), HOp::DelQuery(Q::All), HOp::Add(5), HOp::Add(6), HOp::DelTerm(Q::Id(7)), HOp::Add(7), HOp::Commit] },
+        // the same on indexes sorted by id descending / grp ascending: doc ids are not in opstamp order
+        Case { config: Config { threads: 1, cut: 3, policy: 0, mmap: false, sort: 3 }, ops: vec![HOp::Add(1), HOp::Add(2), HOp::Add(3), HOp::Commit, HOp::Add(4), HOp::DelQuery(Q::All), HOp::Add(5), HOp::Add(6), HOp::DelTerm(Q::Id(7)), HOp::Add(7), HOp::DelTerm(Q::Tag(doc_tag(6))), HOp::Add(8), HOp::Commit, HOp::Merge(3), HOp::DropReopen(true)] },
+        Case { config: Config { threads: 2, cut: 0, policy: 2, mmap: false, sort: 1 }, ops: vec![HOp::Add(1), HOp::Add(2), HOp::DelTerm(Q::Grp(doc_grp(2))), HOp::Add(3), HOp::Add(4), HOp::Batch(vec![BItem::Add(5), BItem::Del(Q::Id(5)), BItem::Add(6), BItem::Del(Q::Grp(doc_grp(1)))]), HOp::Add(7), HOp::Commit, HOp::Add(8), HOp::DelTerm(Q::Id(3)), HOp::Commit] },
         // batch: delete then re-add inside one batch
         Case { config: cfg(3, 1), ops: vec![HOp::Add(1), HOp::Batch(vec![BItem::Del(Q::Id(1)), BItem::Add(2), BItem::Del(Q::Id(2)), BItem::Add(3), BItem::Del(Q::Id(4)), BItem::Add(4)]), HOp::Batch(vec![]), HOp::Commit] },
     ]
@@ -1734,6 +2007,10 @@ pub fn run(ctx: &mut Ctx) {
     if let Some(case) = ctx.replay.clone() {
         if case["kind"] == "lifecycle-race" {
             lifecycle_race(ctx);
+            return;
+        }
+        if case["kind"] == "forced" {
+            forced_schedule(ctx, case["pair"].as_u64().unwrap_or(0) as usize, case["schedule"].as_u64().unwrap_or(2), case["cut"].as_u64().unwrap_or(0) as u32);
             return;
         }
         if case["kind"] == "producer-race" {
@@ -1760,8 +2037,19 @@ pub fn run(ctx: &mut Ctx) {
     for _ in 0..ctx.budget(2, 10) {
         lifecycle_race(ctx);
     }
-    // producer threads racing between stamp and send (F10)
-    producer_race(ctx, ctx.budget(120, 2000));
+    // forced producer schedules: every pair of calls, every order of {stamp, publish} x 2
+    for pair in 0..forced_pairs().len() {
+        for schedule in 0..3 {
+            for cut in [0u32, 1] {
+                forced_schedule(ctx, pair, schedule, cut);
+            }
+        }
+    }
+    // producer threads racing between stamp and send (F10), free-running (thorough tier only:
+    // the forced schedules above give the deterministic witness)
+    if ctx.thorough() {
+        producer_race(ctx, 2000);
+    }
     // real memory-budget cuts in the middle of run() batches
     let memcut = ctx.budget(7, 70);
     for k in 0..memcut {
